@@ -58,7 +58,7 @@ def _sig(v):
     shape = tuple((x["k"], x["named"], min(len(x["b"]), 2)) for x in vals[:4]) + (min(len(vals), 5),)
     st = v["stream"]
     sclass = 0 if st == 0 else 1 if st < 127 else 2 if st == 127 else 3 if st < 256 else 4 if st < 32767 else 5
-    return (v["kind"], v["v"], v["comp"], v["trace"], min(len(v["payload"]), 2), v["skipmeta"], v["pagesize"] > 0,
+    return (v["kind"], v["v"], v["comp"], v["trace"], min(len(v["payload"]), 2), v["skipmeta"], (v["pagesize"] > 0) - (v["pagesize"] < 0),
             len(v["pstate"]) > 0, v["serial"], v["ts"]["set"], v["ts"]["now"], len(v["ks"]) > 0, shape, sclass,
             v["btype"], tuple(s["prep"] for s in v["stmts"][:3]), min(len(v["smap"]), 3), min(len(v["slist"]), 3),
             v["tok"]["nul"], min(len(v["tok"]["b"]), 1))
